@@ -284,6 +284,15 @@ func c01Exec(c fw.Case) *fw.Result {
 		key := fmt.Sprintf("C01/header/%s/only%v/zero%v", part, only, zero)
 		c01Check(res, f, procs, 0, key)
 		res.Eval(fmt.Sprintf("header/%s/only%v/zero%v", part, only, zero))
+	case "manyblocks":
+		// a long run within one scanner's lifetime: more blocks than fit a 16-bit counter
+		r := gen.New(c.Seed, "c01many")
+		nb := int(c.Int("blocks"))
+		f := pbfw.GenFile(r, pbfw.GenOpts{MinBlocks: nb, MaxBlocks: nb, MaxGroups: 1, MaxElems: 2, SmallStrings: true})
+		c01Check(res, f, procs, 0, fmt.Sprintf("C01/manyblocks/%d", nb))
+		res.Eval(fmt.Sprintf("manyblocks/%d/procs%d", nb, procs))
+		res.Add("blocks_scanned", int64(len(f.Blocks)))
+		res.Sample = map[string]any{"blocks": nb, "procs": procs, "objects": len(f.ExpectAll())}
 	case "degenerate":
 		// valid streams with (next to) nothing in them
 		r := gen.New(c.Seed, "c01degenerate")
@@ -444,6 +453,12 @@ func c01Cases(tier string, seed uint64) []fw.Case {
 				}
 			}
 		}
+		if vi == 0 {
+			cs = append(cs, fw.Case{Kind: "manyblocks", Variant: v, Seed: gen.Sub(seed, "c01many", 0), P: map[string]int64{"blocks": 66000, "procs": 3}})
+			if tier == "thorough" {
+				cs = append(cs, fw.Case{Kind: "manyblocks", Variant: v, Seed: gen.Sub(seed, "c01many", 1), P: map[string]int64{"blocks": 140000, "procs": 1}})
+			}
+		}
 		for i := 0; i < 20; i++ {
 			cs = append(cs, fw.Case{Kind: "degenerate", Variant: v, Seed: gen.Sub(seed, "c01deg", i), P: map[string]int64{"shape": int64(i % 5), "procs": []int64{1, 3, 16, 0}[i/5], "chunk": []int64{0, -1, 5, -8}[(i/5+i)%4]}})
 		}
@@ -524,7 +539,7 @@ func init() {
 		ID:    "C01",
 		Level: "exploration",
 		Rule: "files written by the independent PBF writer: (a) systematic present/absent toggles of each of 33 optional parts between consecutive blocks on the same decoder, consecutive groups of a block and consecutive elements of a group, each header field alone and all-but-it; " +
-			"(b) PRNG files of 1-40 blocks, 1-4 groups, 0-40 elements (plus a few files with up to 9000 elements per group, the size class of real extracts), arbitrary UTF-8, header bounding boxes whose four corners are independent numbers (one hemisphere, left > right, bottom > top), granularity/offset/date-granularity classes, raw and zlib, shuffled field order and string table, unknown fields; a fifth of the files with unusual-but-valid values (ids zero / negative / beyond 2^40 / repeated / unsorted, versions uids changesets at the ends of their types, strings of up to 70 kB, 300 tags, 2000 refs, 3000 members, duplicate tag keys) and a tenth in which every block is followed by a structural twin with different values or by an exact copy; blocks whose BlobHeader is exactly 32767 / 32768 / 65534 / 65535 bytes and whose Blob is exactly 16 MiB ± 1, 32 MiB − 2 and 32 MiB − 1 bytes (the hard limits are exclusive), a compressed blob inflating to 24 MiB; decoder counts {1,2,3,5,16,32} and the degenerate 0 / -1 (one decoder), nil context, chunked readers and readers that return their last bytes together with io.EOF; degenerate streams (header only, blocks without groups, groups without elements, header-less streams starting with an empty block); both zlib back-ends (cgo/czlib and pure Go). " +
+			"(b) PRNG files of 1-40 blocks, 1-4 groups, 0-40 elements (plus a few files with up to 9000 elements per group, the size class of real extracts), arbitrary UTF-8, header bounding boxes whose four corners are independent numbers (one hemisphere, left > right, bottom > top), granularity/offset/date-granularity classes, raw and zlib, shuffled field order and string table, unknown fields; a fifth of the files with unusual-but-valid values (ids zero / negative / beyond 2^40 / repeated / unsorted, versions uids changesets at the ends of their types, strings of up to 70 kB, 300 tags, 2000 refs, 3000 members, duplicate tag keys) and a tenth in which every block is followed by a structural twin with different values or by an exact copy; blocks whose BlobHeader is exactly 32767 / 32768 / 65534 / 65535 bytes and whose Blob is exactly 16 MiB ± 1, 32 MiB − 2 and 32 MiB − 1 bytes (the hard limits are exclusive), a compressed blob inflating to 24 MiB; decoder counts {1,2,3,5,16,32} and the degenerate 0 / -1 (one decoder), nil context, chunked readers and readers that return their last bytes together with io.EOF; a file of 66 000 blocks (more than a 16-bit counter holds); degenerate streams (header only, blocks without groups, groups without elements, header-less streams starting with an empty block); both zlib back-ends (cgo/czlib and pure Go). " +
 			"A signature is the presence-bit/parameter-class vector of a block with >=1 element, or the toggled part and level; distinct_nontrivial counts distinct signatures.",
 		Assumptions: []string{
 			"an absent timestamp may be delivered as Go's zero time or as the Unix epoch (both are zero metadata); generated present timestamps are never 0",
